@@ -1,4 +1,5 @@
 """C16 -- remote control equals direct control; each transition announced once, in order."""
+import sys
 import threading
 
 import kiwipy
@@ -26,13 +27,15 @@ RULE = ('programs x sequences of K<=2 control messages {rpc pause/play/kill/stat
 RULE += ('; also: replies dropped by the transport, broadcasts delivered by keyword, processes recreated from a terminal checkpoint, messages sent from a communicator thread while the loop is blocked in its selector')
 ASSUMPTIONS = ['the RabbitMQ transport itself is replaced by an in-process communicator that follows its observable protocol (pv/comm.py)',
                'an exception raised by a handler may reach the sender wrapped in RemoteException']
-REQUIRED = ['handlers_ran', 'twin_compared', 'replies_compared', 'announcements_checked', 'intent/pause', 'intent/play', 'intent/kill', 'intent/status',
+REQUIRED = ['recreated_with_cancelled_future', 'empty_texts_compared', 'handlers_ran', 'twin_compared', 'replies_compared', 'announcements_checked', 'intent/pause', 'intent/play', 'intent/kill', 'intent/status',
             'via/rpc', 'via/bcast', 'wrap/raw', 'wrap/loop', 'broadcast_faults', 'after_termination_checks', 'in_step_deliveries', 'idle_deliveries', 'idle_thread_runs', 'dropped_replies', 'recreated_terminal_checks', 'unsubscribe_faults', 'own_subscription_handles', 'own_state_transitions', 'subscription_faults']
 BOUNDS = {'quick': '6 programs, K<=2 messages (K=2 sampled 1/3), all broadcast fault points', 'thorough': '14 programs + thread-mode delivery (400 runs)'}
 MSGS = [['rpc', 'pause', 'rp'], ['rpc', 'play', None], ['rpc', 'kill', 'rk'], ['rpc', 'status', None], ['bcast', 'pause', 'bp'], ['bcast', 'play', None],
         ['bcast', 'kill', 'bk'],
         # (requests without a message text: the controllers' methods take the text as an optional argument)
-        ['bcast', 'kill', None], ['bcast', 'pause', None], ['rpc', 'kill', None]]
+        ['bcast', 'kill', None], ['bcast', 'pause', None], ['rpc', 'kill', None],
+        # (... and with an empty one: a text like any other -- it replaces the status while paused, it is the text of the kill message)
+        ['rpc', 'pause', ''], ['rpc', 'kill', ''], ['bcast', 'pause', '']]
 # what a communicator raises when it cannot deliver an announcement: the connection or channel is gone, the broker does not answer in time,
 # or the communicator object itself has been closed (at the shutdown of whatever runs the processes) while the process is still alive
 TOLERATED = {'closed': lambda: ConnectionClosed('closed'), 'channel': lambda: ChannelInvalidStateError('invalid'), 'timeout': lambda: kiwipy.TimeoutError('timeout'),
@@ -69,7 +72,10 @@ class CommRun(lifecycle.Run):
         self.handler_calls = []
         self.status_calls = []
         self.replies = []
-        proc = cls(loop=loop, communicator=communicator, pid=self.case.get('pid', 4242))
+        if self.case.get('recreate_cancelled'):
+            proc = self._recreated_with_cancelled_future(cls, loop, communicator, pid=self.case.get('pid', 4242))
+        else:
+            proc = cls(loop=loop, communicator=communicator, pid=self.case.get('pid', 4242))
         for name in ('pause', 'play', 'kill'):
             setattr(proc, name, self._wrap(proc, name, getattr(proc, name)))
         orig_status = proc.get_status_info
@@ -85,6 +91,8 @@ class CommRun(lifecycle.Run):
         def handler(*args, **kwargs):
             if getattr(self, '_direct', False):
                 return orig(*args, **kwargs)  # called by the harness itself (drain), not on behalf of a message
+            if sys._getframe(1).f_code.co_name in ('try_killing', 'step'):
+                return orig(*args, **kwargs)  # the process's own kill of itself (its future was cancelled), not a message either
             entry = {'name': name, 'args': _jsonable([list(args), kwargs]), 'pos': self.nproc_events(), 'live': not proc.has_terminated(),
                      'phase': lifecycle.phase_of(proc, self.task is not None)}
             self.handler_calls.append(entry)
@@ -234,6 +242,11 @@ def gen_cases(tier, seed):
             for i, plan in enumerate(plist):
                 yield {'kind': 'twin', 'name': name, 'program': prog, 'plan': [dict(e, act=list(e['act'])) for e in plan], 'wrap': wrap,
                        'drain': True, 'listener': False}
+            # the process is one recreated (with the communicator) from a checkpoint written just after its future had been cancelled by
+            # whoever held it: alive until its next step carries out the kill, and reachable like any live process
+            for plan in [[]] + [[{'at': s, 'act': m}] for s in (0, 1) for m in MSGS] + [[{'at': 0, 'act': m1}, {'at': 0, 'act': m2}] for m1 in MSGS[:4] for m2 in MSGS[:4]]:
+                yield {'kind': 'twin', 'name': name, 'program': prog, 'plan': [dict(e, act=list(e['act'])) for e in plan], 'wrap': wrap,
+                       'drain': True, 'listener': False, 'recreate_cancelled': True}
             # a communicator that hands out subscription handles of its own
             for i, plan in enumerate(plist[:: max(1, len(plist) // 12)]):
                 yield {'kind': 'twin', 'name': name, 'program': prog, 'plan': [dict(e, act=list(e['act'])) for e in plan], 'wrap': wrap,
@@ -564,7 +577,7 @@ def run_case(case):
         text = c['args'][1].get('msg_text')
         act = ['play'] if c['name'] == 'play' else [c['name'], text]
         plan_b.append({'at': ['events', c['pos']], 'act': act})
-    b = lifecycle.run_case({'program': case['program'], 'plan': plan_b, 'drain': True, 'listener': False})
+    b = lifecycle.run_case({'program': case['program'], 'plan': plan_b, 'drain': True, 'listener': False, 'recreate_cancelled': bool(case.get('recreate_cancelled'))})
     obs['twin_compared'] = 1
     direct = [x for x in b['acts'] if x['via'].startswith('events')]
     sa, sb = _summary(a), _summary(b)
@@ -580,12 +593,32 @@ def run_case(case):
         dv = d['ret'] if d['ret'][0] != 'future' else ['future', dict((n, f) for n, f in b['futs']).get(d['n'])]
         if hv != dv:
             viol.append(V('handler-return', 'handler-return:%s' % c['name'], '%s: handler %s returned %s, the direct call %s' % (label, c['name'], hv, dv)))
+    # a live process can be reached (a direct call always can)
+    obs['recreated_with_cancelled_future'] = int(bool(case.get('recreate_cancelled')))
+    for x in a['acts']:
+        if x['kind'] == 'rpc' and x['live_before'] and x['ret'][0] == 'raise':
+            viol.append(V('live-unroutable', 'live-unroutable:%s' % x['arg'][0], '%s: the rpc %s message to the live process (%s) could not be delivered: %s' % (
+                label, x['arg'][0], x['state_before'], x['ret'][1])))
+            break
     # every control message that was routed to the live process reaches its handler (a direct call always runs)
     routed = [x for x in a['acts'] if x['kind'] in ('rpc', 'bcast') and x['arg'][0] != 'status' and x['ret'][0] != 'raise' and x['live_before']]
     if len(calls) != len(routed) and not a['inconclusive']:
         viol.append(V('handler-skipped', 'handler-skipped:%s' % '>'.join('%s-%s' % (m[0], m[1]) for m in msgs),
                       '%s: %d control messages were routed to the process but %d handlers ran (messages %s, replies %s)' % (
                           label, len(routed), len(calls), msgs, ex['replies'])))
+    elif len(calls) == len(routed):
+        # ... with the text that was sent ('' is a text, None is none): the direct call the message stands for is the one with that text
+        for c, x in zip(calls, routed):
+            if c['name'] != x['arg'][0] or c['name'] == 'play':
+                continue
+            got = c['args'][1].get('msg_text', c['args'][0][0] if c['args'][0] else None)
+            obs['texts_compared'] = obs.get('texts_compared', 0) + 1
+            if x['arg'][1] == '':
+                obs['empty_texts_compared'] = obs.get('empty_texts_compared', 0) + 1
+            if got != x['arg'][1]:
+                viol.append(V('handler-text', 'handler-text:%s-%s' % (x['kind'], c['name']), '%s: the %s %s message was sent with the text %r, %s() was called with %r' % (
+                    label, x['kind'], c['name'], x['arg'][1], c['name'], got)))
+                break
     # replies: what the sender gets equals the (awaited) value of the handler / direct call
     rpc_calls = [c for c in calls]  # handlers run in message order; broadcast handlers interleave in the same order
     hi = 0
